@@ -1109,6 +1109,7 @@ postfixexpr(struct scope *s, struct expr *r)
 			(r->decayed ? r->base : r)->lvalue = lvalue;
 			if (m->bitfield) {
 				e = mkexpr(EXPRBITFIELD, r->type, r);
+				e->qual = r->qual;
 				e->lvalue = lvalue;
 				e->u.bitfield.bits = m->bits;
 			} else {
